@@ -22,6 +22,9 @@ def run(tier):
         res = ownrules.analyse(mod, rep)
         total_ops += len(res)
         ownrules.typestate_obligations(rep, mod, res, "normal", "D=%d" % D)
+    # element-construction helpers: exact construct / destroy ranges (loops unrolled)
+    nexact = ownrules.rollback_exact(rep, ownrules.module(wd, 1), "D=1", "R08", 3 if tier == "quick" else 5)
+    rep.need_instances("R08.exact helpers interpreted with unrolled loops", nexact, 9)
     # trivial element type
     mod = ownrules.module(wd, 2, prelude="#define TRACKED_TRIVIAL 1", tag="D2_int")
     res = ownrules.analyse(mod, rep)
